@@ -13,16 +13,18 @@
 
    What is NOT proved here (see checks/C05.json, statement_status):
    * "answers every query identically" is proved as "the loaded instance has the
-     same (inner, vars, levels) as an instance that holds m" (C05_load_state_partial).
-     That equal states give equal answers needs the query functions of Model.v to
-     read a bit-level message, which they do not yet; on the Go side every query
-     reads only these three fields and the encoder.
+     same (inner, vars, levels) as an instance that holds m" (C05_load_state_partial),
+     and, composed with L2/L3 (C05_loaded_trie_answers at the end of this file): GetID,
+     Get and searchID run over the loaded message return the tree model's answers.
+     Not composed: the scanners (proved over the tree, C04).
    * determinism of the BUILD (sortedBMCounts tie-break) is covered by the oracle
      only; Marshal being a function of the message is immediate (marshal_gen is a
      Coq function). *)
 From Coq Require Import List NArith ZArith Bool.
 From Coq.Strings Require Import Byte.
 From Slim Require Import Varint VarintProofs Proto ProtoProofs Semver Frame FrameProofs Instance InstanceProofs Wire WireProofs.
+From Slim Require Import Base Keys Model BitmapRank Flat FlatProofs Msg MsgProofs EndToEnd EndToEndProofs.
+From Slim Require Bits.
 Import ListNotations.
 Open Scope N_scope.
 
@@ -145,3 +147,46 @@ Proof. exact (C05_size ex_msg ex_bytes ex_marshal_is_real). Qed.
 Example ex_negative : parse_slim (ser_slim (mkSlim (-1)%Z (-2147483648)%Z None None None [4294967295] None None None []))
                       = Some (mkSlim (-1)%Z (-2147483648)%Z None None None [4294967295] None None None []).
 Proof. vm_compute. reflexivity. Qed.
+
+(* ---- the loaded trie answers identically (composition of L2, L3 and L4) -----------------
+   Build a trie from ANY accepted input, take its bit-level message m (Bits.encode_trie,
+   tied to creator.build field by field in check L3), Marshal it, and Unmarshal the bytes
+   into an instance in ANY state after ANY history of Unmarshal / Reset calls.  Then GetID,
+   Get and searchID, run the way the Go code runs them over the instance's inner message
+   and vars (Msg.v: getNode, getLeftChildID, Rank128, leaf prefix, VLenArray.get), return
+   exactly the tree model's answers - the answers of the trie that was marshalled.
+   [wf_msg (to_wire m)] says that the counts and offsets fit the Go field types (int32 /
+   uint32 / uint64) and the body is below 2^63 bytes.  to_wire is the identity on fields.
+   Still PARTIAL for the scanners (NewIter / ScanFrom read the same message and levels;
+   they are proved at L2 over the tree, C04) and for determinism of the build. *)
+Theorem C05_loaded_trie_answers :
+  forall (Levels : Type) (init_levels : slim -> Levels) (reset_levels : Levels)
+         (conv510 : slim -> slim) (conv3 : list byte -> list byte -> list byte -> slim)
+         o keys vals T m vs s (st : inst VarsT Levels) h q fuel,
+    build o keys vals = Ok T -> Bits.encode_trie T = Val m -> Bits.init_vars m = Val vs ->
+    wf_msg (to_wire m) = true -> marshal_gen (to_wire m) = Some s ->
+    (trie_height T <= fuel)%nat ->
+    let st' := run compat_gen cur_gen VarsT Levels ivars init_levels reset_levels conv510 conv3 st (h ++ [OpUnmarshal s]) in
+    inst_getid Levels st' (S fuel) q = Ok (getid T q) /\
+    inst_get Levels st' (S fuel) q = get T q /\
+    inst_searchid Levels st' (S fuel) q = Ok (let '(l, e, rr) := searchid T q in (oid l, oid e, oid rr)).
+Proof. exact loaded_answers. Qed.
+Print Assumptions C05_loaded_trie_answers.
+
+(* the hypotheses hold for a concrete built trie: values of unequal widths, both prefix modes *)
+Definition e2e_keys : list key :=
+  [ ["097"%byte]; ["097"%byte; "098"%byte; "099"%byte]; ["098"%byte; "120"%byte; "121"%byte] ].
+Definition e2e_vals : option (list (list byte)) := Some [ ["001"%byte]; []; ["002"%byte; "003"%byte] ].
+Definition e2e_opt : opts := {| o_dedup := false; o_inner := true; o_leaf := true |}.
+
+Example C05_loaded_example :
+  exists T m vs s, build e2e_opt e2e_keys e2e_vals = Ok T /\ Bits.encode_trie T = Val m /\
+    Bits.init_vars m = Val vs /\ wf_msg (to_wire m) = true /\ marshal_gen (to_wire m) = Some s /\
+    (trie_height T <= 5)%nat /\ length s = 186%nat.
+Proof.
+  destruct (build e2e_opt e2e_keys e2e_vals) as [T|] eqn:E; [|vm_compute in E; discriminate].
+  vm_compute in E. injection E as <-.
+  eexists _, _, _, _. split; [reflexivity|]. split; [vm_compute; reflexivity|]. split; [vm_compute; reflexivity|].
+  split; [vm_compute; reflexivity|]. split; [vm_compute; reflexivity|]. split; [vm_compute; repeat constructor|].
+  vm_compute. reflexivity.
+Qed.
